@@ -23,7 +23,14 @@ JudgeExp2(e, i) ==
         lo == Lo(frI, nb)  hi == Hi(frI, nb)
         tlo == ScaleFloor(lo, n - E - F)  thi == ScaleFloor(hi, n - E - F)
         integral == IsZero(fr)
-    IN IF nb < 1 \/ nb > 30 \/ ~IsSmall(ShrFloor(raw, nb)) \/ n + 1 > digs + E \/ n - E < -2
+    IN IF E >= 0 THEN
+           \* a scale of one or coarser: x = raw * 2^E is integral; exact whenever 2^x is a multiple of the resolution and fits
+           LET xi == IF IsSmall(raw) /\ ToInt(raw) < 4096 /\ ToInt(raw) > -4096 THEN ToInt(raw) * (2 ^ E) ELSE 100000
+           IN IF E > 8 \/ xi - E < 0 \/ xi - E >= digs THEN [d |-> "skip", nt |-> FALSE, cls |-> cls]
+              ELSE [d |-> (IF MUb(e.out) THEN "ub" ELSE IF e.out = "timeout" THEN "timeout" ELSE IF e.out # "ok" THEN "unexpected_signal"
+                           ELSE IF y = Pow2(xi - E) THEN "ok" ELSE "inexact_for_integral_x"),
+                    nt |-> TRUE, cls |-> cls]
+       ELSE IF nb < 1 \/ nb > 30 \/ ~IsSmall(ShrFloor(raw, nb)) \/ n + 1 > digs + E \/ n - E < -2
        THEN [d |-> "skip", nt |-> FALSE, cls |-> cls]                \* result not representable / out of the modelled range
        ELSE [d |-> (IF MUb(e.out) THEN "ub" ELSE IF e.out = "timeout" THEN "timeout" ELSE IF e.out # "ok" THEN "unexpected_signal"
                     \* exact for integral x whenever 2^x is a multiple of the result resolution
